@@ -17,6 +17,7 @@ mod project;
 mod proptest;
 mod driver;
 mod hashseed;
+mod ledger_params;
 mod rng;
 mod sched;
 mod storage;
